@@ -158,7 +158,8 @@ Proof.
   intros Hinv Hcx Hr H.
   destruct (ingress_inv _ _ _ _ _ _ _ _ Hinv Hcx Hr H) as (g' & Hi' & _ & _ & Hpg & Hacc).
   exists g'. split; [exact Hi'|]. split.
-  - destruct Hpg as [-> | [(Hl & Hsyn & P & Fn & St & I' & St' & Fn' & P' & A') | (E1 & E2 & E3 & Hm & d & Hd & Hu & Hd1 & Hack)]].
+  - destruct Hpg as [-> | [(Hl & Hsyn & P & Fn & St & I' & St' & Fn' & P' & A') |
+                           [(E1 & E2 & E3 & Hm & d & Hd & Hu & Hd1 & Hack) | (Hsr & Hrst & P & Fn & St & -> & Hl')]]].
     + left. apply tx_same_id; [intros; discriminate | discriminate].
     + right. split; [split; [exact St' | split; [exact Fn' | exact P']]|]. right.
       split; [split; [exact St | split; [exact Fn | exact P]] | left; exact Hl].
@@ -170,6 +171,9 @@ Proof.
       exists ip, r. split; [reflexivity|]. split.
       * destruct Hacc as [-> | Ha']; [lia | exact Ha'].
       * split; [exact Hn|]. rewrite Ha. f_equal. f_equal. lia.
+    + (* RST aborting the handshake of a listener: back to LISTEN, blank epoch *)
+      right. split; [unfold tx_blank, g_fresh; cbn; repeat split; reflexivity|]. right.
+      split; [split; [exact St | split; [exact Fn | exact P]] | right; exact Hl'].
   - intros p Hp. cbn [tx_emitted] in Hp. destruct reply as [q|]; [|discriminate]. inversion Hp; subst q.
     eapply tx_pkt_ok_reply; [|reflexivity]. eapply ingress_reply_no_data. exact H.
 Qed.
@@ -307,9 +311,7 @@ Proof.
   - inversion H; subst. apply Hid; [reflexivity | reflexivity | intros; discriminate | discriminate].
   - (* set_keep_alive: an idle timer stays idle *)
     inversion H; subst; clear H. exists g. split.
-    + unfold tcp_set_keep_alive. destruct (is_some d); [|eapply inv_txv; [|exact Hinv]; reflexivity].
-      destruct Hinv as (Htx & Htm). split; [unfold tx_inv; fld; exact Htx|].
-      unfold tm_inv, tm_inv_f in *. fld. destruct (s_timer s) as [[k|]| | | |]; exact Htm.
+    + apply set_keep_alive_inv. exact Hinv.
     + split; [left; apply tx_same_id; [intros; discriminate | discriminate] | intros p Hp; discriminate].
   - inversion H; subst. apply Hid; [reflexivity | reflexivity | intros; discriminate | discriminate].
   - inversion H; subst. apply Hid; [reflexivity | reflexivity | intros; discriminate | discriminate].
